@@ -45,6 +45,8 @@ type cfgDesc struct {
 	Attempts int      `json:"dial_attempts"`      // --dial-attempts (Dialer retry); <= 0 means 1
 	FailFirst int     `json:"fail_first_dials"`   // scripted environment: that many socket requests fail first, per request
 	IDNA     bool     `json:"idna_corpus,omitempty"` // corpus marker: exercise IDNA-mapped spellings of special hosts
+	Aliases  bool     `json:"aliases_corpus,omitempty"` // corpus marker: loopback aliases of the injected hosts file
+	Socks2   bool     `json:"socks2_corpus,omitempty"`  // corpus marker: CONNECT sequences over two SOCKS5 proxies
 }
 
 func (p *pacDesc) script() string {
